@@ -1479,6 +1479,29 @@ func zzC10Pick(u *zzC10Univ, rng *rand.Rand, cur *zzC10Obs) (a zzC10Act) {
 	return a
 }
 
+// zzC10WellFormed reports whether ls can be a table of the specification at
+// all: one lease per client, per address and per host name.
+func zzC10WellFormed(ls []zzC10L) (ok bool) {
+	seen := map[string]bool{}
+	for _, l := range ls {
+		keys := []string{"m" + l.Mac, "i" + strconv.Itoa(l.IP)}
+		if l.Host != "" {
+			keys = append(keys, "h"+l.Host)
+		}
+		for _, k := range keys {
+			if seen[k] {
+				return false
+			}
+			seen[k] = true
+		}
+		if l.IP < 0 || strings.HasPrefix(l.Mac, "?") || strings.HasPrefix(l.Host, "?") {
+			return false
+		}
+	}
+
+	return true
+}
+
 // TestZZVerifC10Trace is direction B: random histories, recorded.
 func TestZZVerifC10Trace(t *testing.T) {
 	var hdr *zzC10Hdr
@@ -1517,7 +1540,7 @@ func TestZZVerifC10Trace(t *testing.T) {
 				Prob: post.Prob, SrcProb: cur.Prob, SrcDisk: cur.Disk, Run: run, Step: step})
 			fresh = false
 			cur = post
-			if len(post.Prob) > 0 && !zzC10Soft(post.Prob) {
+			if !zzC10Soft(post.Prob) || !zzC10WellFormed(post.Ls) {
 				// Not a state of the specification any more: start afresh.
 				if err = y.reset(); err != nil {
 					t.Fatalf("reset: %v", err)
